@@ -48,6 +48,9 @@ type kind struct {
 	jsonDec func(b []byte) (any, error)
 	// reencRefused recognises an encoding that stands for "the encoder's documented limits refuse this value".
 	reencRefused func(v any, e1 []byte) bool
+	// guard inspects an input before it is decoded and returns the iteration count the decoder's loop is going to
+	// run when that count comes from the input alone (see hangGuard in check.go); nil for all other decoders.
+	guard func(b []byte) uint64
 	// jsonKey names the finding class of a failing JSON clause for this kind ("" = none recorded).
 	jsonKey string
 	// alt are other production paths decoding the same bytes; all successful ones must agree on ident.
@@ -547,6 +550,23 @@ func init() {
 				if err != nil {
 					return err
 				}
+				if len(b) > 3 && b[0] == 0 && m.Payload != nil {
+					// Uncompressed frame: replay it primitive by primitive so that the mutator sees the payload's varints.
+					ps := &segWriter{}
+					if err := serEnc(m.Payload, ps); err == nil {
+						pb := ps.buf.Bytes()
+						hdr := len(b) - len(pb)
+						if hdr >= 3 && bytes.Equal(b[hdr:], pb) {
+							_, _ = w.Write(b[:1])
+							_, _ = w.Write(b[1:2])
+							_, _ = w.Write(b[2:hdr])
+							for _, sg := range ps.segs {
+								_, _ = w.Write(pb[sg[0] : sg[0]+sg[1]])
+							}
+							return nil
+						}
+					}
+				}
 				_, err = w.Write(b)
 				return err
 			},
@@ -631,6 +651,18 @@ func init() {
 		extra: nodeExtra,
 	})
 	addKind(&kind{name: "proofwithkey", weight: 1, maxCount: 1 << 22,
+		guard: func(b []byte) uint64 {
+			// Key = ReadVarBytes(); sz = ReadVarUint(); "for range sz { append(ReadVarBytes()) }" has no error exit.
+			kl, ksz, ok := readVarRef(b, 0)
+			if !ok || kl > 0x1000000 || uint64(ksz)+kl > uint64(len(b)) {
+				return 0
+			}
+			sz, _, ok := readVarRef(b, ksz+int(kl))
+			if !ok {
+				return 0
+			}
+			return sz
+		},
 		build: func(t *tape) any {
 			p := &result.ProofWithKey{Key: t.blob(70)}
 			n := t.n(4)
@@ -835,6 +867,14 @@ func init() {
 	addKind(&kind{name: "nep17", build: func(t *tape) any { return buildNEP17(t) }, enc: serEnc, dec: serDec[state.NEP17Transfer](nil)})
 	addKind(&kind{name: "nep11", build: func(t *tape) any { return buildNEP11(t) }, enc: serEnc, dec: serDec[state.NEP11Transfer](nil)})
 	addKind(&kind{name: "tti", weight: 1, nodeterm: true, maxCount: 1 << 22,
+		guard: func(b []byte) uint64 {
+			// 26 bytes of fixed fields, then lenBalances = ReadVarUint(); "for range lenBalances" has no error exit.
+			n, _, ok := readVarRef(b, 26)
+			if !ok {
+				return 0
+			}
+			return n
+		},
 		build: func(t *tape) any { return buildTTI(t) }, enc: serEnc, dec: serDec[state.TokenTransferInfo](nil)})
 	for _, n11 := range []bool{false, true} {
 		n11 := n11
